@@ -8,7 +8,7 @@ SRCFACTS = ["ints"]
 RULE = ("cases = (schema, datum, disable_tuple_notation) x strict x raise_errors: schemas = random schemas over all constructs + the "
         "union-centred families of C09; data = conforming data (boundary-dense, hints) and, for half of the cases, the same datum with ONE "
         "mutation at a random position (wrong Python type, out-of-range int, bool for a number, wrong fixed size, bytearray for fixed, "
-        "unknown symbol, non-string map key, missing required / defaulted field, wrong '-type' or tuple hint, tuple of arity 3 under a "
+        "unknown symbol, non-string map key, missing required / defaulted field, an explicit None for a non-nullable value / for a field that has a default, wrong '-type' or tuple hint, tuple of arity 3 under a "
         "union, str for a sequence); corr:validate compares fastavro.validate in all four flag combinations with the model and with the "
         "independent Python predicate of the documented mapping; corr:validate-many groups the data of one schema; "
         "corr:validate-vs-writer: accepted => schemaless_writer and writer(validator=True) encode and the value reads back normalised; "
@@ -361,6 +361,11 @@ WITNESS_SCHEMAS = [
     # strict writers: the branch search itself is strict -- A lacks its nullable default-less field, B fits exactly
     ([{"type": "record", "name": "SA", "fields": [{"name": "a", "type": "int"}, {"name": "b", "type": ["null", "string"]}]},
       {"type": "record", "name": "SB", "fields": [{"name": "a", "type": "int"}]}], {"a": 1}, "conforming"),
+    # an explicit None in a non-nullable field that declares a default is NOT an absent field: rejected by validate and writers
+    ({"type": "record", "name": "RD", "fields": [{"name": "count", "type": "int", "default": 0}, {"name": "s", "type": "string", "default": "x"}]},
+     {"count": None, "s": "y"}, "none-for-defaulted-field"),
+    ({"type": "array", "items": {"type": "record", "name": "RD2", "fields": [{"name": "f", "type": "double", "default": 1.5}]}},
+     [{"f": 2.0}, {"f": None}], "none-for-defaulted-field"),
     # O1 (observation): omitted bytes field whose default is a JSON string
     ({"type": "record", "name": "RO1", "fields": [{"name": "a", "type": "bytes", "default": "abc"}]}, {}, "missing-defaulted-field"),
 ]
